@@ -32,7 +32,8 @@ Inductive obs :=
 (* s_tl: the thread-local formatting buffer of the logging thread (util::buffer_with).  It is cleared after
    write_buffer has returned; when write_buffer (or the lock on a poisoned state) panics, what was formatted stays
    in it and is put out together with the next record *)
-Record sys := { s_flw : option flw; s_w : world; s_tl : bytes }.
+Record sys := { s_flw : option flw; s_w : world; s_tl : bytes;
+                s_dead : bool }.   (* asynchronous mode: the writer thread has ended (shutdown message, or a panic) *)
 
 Definition code_of {A} (r : res A) : N := match r with Ok _ => 0 | Err => 1 | Panic => 2 end.
 
@@ -61,7 +62,44 @@ Definition ext_mkdir (f : fs) (a : bytes) (now : Z) : fs :=
   {| names := (a, length (inodes f)) :: names f;
      inodes := inodes f ++ [{| fdata := []; fgz := 0; fborn := now; fdir := true |}] |}.
 
-Definition step (x : sys) (o : op) : sys * obs :=
+(* asynchronous mode (the correspondence check lets the writer thread work off each message before the next
+   operation): records and raw chunks are sent through the channel as data and written by the writer thread
+   without the thread-local buffer; flush and shutdown requests are messages of their own kind; after the thread
+   has ended, sending fails *)
+Inductive amsg := AData (b : bytes) | AFlush | AShutdown.
+Definition is_async (s : flw) : bool := c_async (f_cfg s).
+
+Definition async_consume (x : sys) (s : flw) (m : amsg) : sys :=
+  let w := s_w x in
+  match m with
+  | AFlush =>
+    let '(ok, w1, s1) := flush_state s w in
+    {| s_flw := Some s1; s_w := if ok then w1 else report EFlush w1; s_tl := s_tl x; s_dead := false |}
+  | AShutdown =>
+    let '(w1, s1) := shutdown_state s w in
+    {| s_flw := Some s1; s_w := w1; s_tl := s_tl x; s_dead := true |}
+  | AData b =>
+    let '(r, w1, s1, _) := write_buffer s w b in
+    {| s_flw := Some s1; s_w := match r with Err => report EWrite w1 | _ => w1 end; s_tl := s_tl x;
+       s_dead := match r with Panic => true | _ => false end |}
+  end.
+
+Definition async_send (x : sys) (s : flw) (m : amsg) (code_if_dead : N) : sys * obs :=
+  if s_dead x then (x, ObsRes code_if_dead false)
+  (* the writer thread takes the lock with unwrap: on a poisoned state it dies *)
+  else if f_poisoned s then ({| s_flw := s_flw x; s_w := s_w x; s_tl := s_tl x; s_dead := true |}, ObsRes 0 false)
+  else (async_consume x s m, ObsRes 0 false).
+
+Definition async_step (x : sys) (s : flw) (o : op) : option (sys * obs) :=
+  match o with
+  | OWrite b => Some (async_send x s (AData b) 0)
+  | OPlain b => Some (async_send x s (AData b) 1)
+  | OFlush => Some (async_send x s AFlush 0)
+  | OShutdown => Some (async_send x s AShutdown 0)
+  | _ => None
+  end.
+
+Definition sync_step (x : sys) (o : op) : sys * obs :=
   let w := s_w x in
   let none := (x, ObsRes 3 false) in
   match o with
@@ -70,10 +108,10 @@ Definition step (x : sys) (o : op) : sys * obs :=
     | None => none
     | Some s =>
       let buf := s_tl x ++ b in
-      if f_poisoned s then ({| s_flw := s_flw x; s_w := w; s_tl := buf |}, ObsRes 2 false) else
+      if f_poisoned s then ({| s_flw := s_flw x; s_w := w; s_tl := buf; s_dead := s_dead x |}, ObsRes 2 false) else
       let '(r, w1, s1, rot) := write_buffer s w buf in
       let w2 := match r with Err => report EWrite w1 | _ => w1 end in
-      ({| s_flw := Some s1; s_w := w2; s_tl := match r with Panic => buf | _ => @nil N end |},
+      ({| s_flw := Some s1; s_w := w2; s_tl := match r with Panic => buf | _ => @nil N end; s_dead := s_dead x |},
        ObsRes (match r with Panic => 2 | _ => 0 end) rot)
     end
   | OPlain b =>
@@ -82,7 +120,7 @@ Definition step (x : sys) (o : op) : sys * obs :=
     | Some s =>
       if f_poisoned s then (x, ObsRes 1 false) else
       let '(r, w1, s1, rot) := write_buffer s w b in
-      ({| s_flw := Some s1; s_w := w1; s_tl := s_tl x |}, ObsRes (code_of r) rot)
+      ({| s_flw := Some s1; s_w := w1; s_tl := s_tl x; s_dead := s_dead x |}, ObsRes (code_of r) rot)
     end
   | OFlush =>
     match s_flw x with
@@ -90,7 +128,7 @@ Definition step (x : sys) (o : op) : sys * obs :=
     | Some s =>
       if f_poisoned s then (x, ObsRes 0 false) else
       let '(ok, w1, s1) := flush_state s w in
-      ({| s_flw := Some s1; s_w := w1; s_tl := s_tl x |}, ObsRes (if ok then 0 else 1) false)
+      ({| s_flw := Some s1; s_w := w1; s_tl := s_tl x; s_dead := s_dead x |}, ObsRes (if ok then 0 else 1) false)
     end
   | OTrigger =>
     match s_flw x with
@@ -99,7 +137,7 @@ Definition step (x : sys) (o : op) : sys * obs :=
       if f_poisoned s then (x, ObsRes 1 false) else
       let '(r, w1, st1) := mount_next (f_cfg s) w (f_inner s) true in
       let s1 := with_inner s st1 in
-      ({| s_flw := Some (match r with Panic => poison s1 | _ => s1 end); s_w := w1; s_tl := s_tl x |}, ObsRes (code_of r) false)
+      ({| s_flw := Some (match r with Panic => poison s1 | _ => s1 end); s_w := w1; s_tl := s_tl x; s_dead := s_dead x |}, ObsRes (code_of r) false)
     end
   | OReopen =>
     match s_flw x with
@@ -107,7 +145,7 @@ Definition step (x : sys) (o : op) : sys * obs :=
     | Some s =>
       if f_poisoned s then (x, ObsRes 1 false) else
       let '(r, w1, s1) := reopen_state s w in
-      ({| s_flw := Some s1; s_w := w1; s_tl := s_tl x |}, ObsRes (code_of r) false)
+      ({| s_flw := Some s1; s_w := w1; s_tl := s_tl x; s_dead := s_dead x |}, ObsRes (code_of r) false)
     end
   | OReset c =>
     match s_flw x with
@@ -117,14 +155,14 @@ Definition step (x : sys) (o : op) : sys * obs :=
       (* the old State is dropped without shutdown: queued cleanup requests are still worked off, the writer flushes *)
       let w0 := drain_acts s w in
       let w1 := match f_inner s with Active _ wr _ => w_drop w0 wr | Initial => w0 end in
-      ({| s_flw := Some (new_flw c); s_w := w1; s_tl := s_tl x |}, ObsRes 0 false)
+      ({| s_flw := Some (new_flw c); s_w := w1; s_tl := s_tl x; s_dead := s_dead x |}, ObsRes 0 false)
     end
   | OShutdown =>
     match s_flw x with
     | None => none
     | Some s =>
       if f_poisoned s then (x, ObsRes 0 false) else
-      let '(w1, s1) := shutdown_state s w in ({| s_flw := Some s1; s_w := w1; s_tl := s_tl x |}, ObsRes 0 false)
+      let '(w1, s1) := shutdown_state s w in ({| s_flw := Some s1; s_w := w1; s_tl := s_tl x; s_dead := s_dead x |}, ObsRes 0 false)
     end
   | OStop =>
     match s_flw x with
@@ -133,30 +171,46 @@ Definition step (x : sys) (o : op) : sys * obs :=
       (* a poisoned mutex makes shutdown a no-op; dropping the State still drops the writer *)
       let w1 := if f_poisoned s then match f_inner s with Active _ wr _ => w_drop (drain_acts s w) wr | Initial => w end
                 else drop_state s w in
-      ({| s_flw := None; s_w := w1; s_tl := s_tl x |}, ObsRes 0 false)
+      ({| s_flw := None; s_w := w1; s_tl := s_tl x; s_dead := s_dead x |}, ObsRes 0 false)
     end
-  | OStart c => ({| s_flw := Some (new_flw c); s_w := w; s_tl := s_tl x |}, ObsRes 0 false)
-  | OTick dt => ({| s_flw := s_flw x; s_w := set_now w (wnow w + dt)%Z; s_tl := s_tl x |}, ObsRes 0 false)
+  | OStart c => ({| s_flw := Some (new_flw c); s_w := w; s_tl := s_tl x; s_dead := false |}, ObsRes 0 false)
+  | OTick dt => ({| s_flw := s_flw x; s_w := set_now w (wnow w + dt)%Z; s_tl := s_tl x; s_dead := s_dead x |}, ObsRes 0 false)
   | OExtRename a b =>
-    ({| s_flw := s_flw x; s_w := set_fs w (match rename (wfs w) a b with Some f => f | None => wfs w end); s_tl := s_tl x |}, ObsRes 0 false)
-  | OExtRemove a => ({| s_flw := s_flw x; s_w := set_fs w (unlink (wfs w) a); s_tl := s_tl x |}, ObsRes 0 false)
-  | OExtCreate a k d => ({| s_flw := s_flw x; s_w := set_fs w (ext_create (wfs w) a k d (wnow w)); s_tl := s_tl x |}, ObsRes 0 false)
-  | OExtMkdir a => ({| s_flw := s_flw x; s_w := set_fs w (ext_mkdir (wfs w) a (wnow w)); s_tl := s_tl x |}, ObsRes 0 false)
+    ({| s_flw := s_flw x; s_w := set_fs w (match rename (wfs w) a b with Some f => f | None => wfs w end); s_tl := s_tl x; s_dead := s_dead x |}, ObsRes 0 false)
+  | OExtRemove a => ({| s_flw := s_flw x; s_w := set_fs w (unlink (wfs w) a); s_tl := s_tl x; s_dead := s_dead x |}, ObsRes 0 false)
+  | OExtCreate a k d => ({| s_flw := s_flw x; s_w := set_fs w (ext_create (wfs w) a k d (wnow w)); s_tl := s_tl x; s_dead := s_dead x |}, ObsRes 0 false)
+  | OExtMkdir a => ({| s_flw := s_flw x; s_w := set_fs w (ext_mkdir (wfs w) a (wnow w)); s_tl := s_tl x; s_dead := s_dead x |}, ObsRes 0 false)
   | OQuery sel =>
     match s_flw x with
     | None => none
     | Some s =>
       if f_poisoned s then (x, ObsList 1 []) else
       match query s w sel with
-      | (Ok l, w1) => ({| s_flw := Some s; s_w := w1; s_tl := s_tl x |}, ObsList 0 l)
-      | (Err, w1) => ({| s_flw := Some s; s_w := w1; s_tl := s_tl x |}, ObsList 1 [])
-      | (Panic, w1) => ({| s_flw := Some (poison s); s_w := w1; s_tl := s_tl x |}, ObsList 2 [])
+      | (Ok l, w1) => ({| s_flw := Some s; s_w := w1; s_tl := s_tl x; s_dead := s_dead x |}, ObsList 0 l)
+      | (Err, w1) => ({| s_flw := Some s; s_w := w1; s_tl := s_tl x; s_dead := s_dead x |}, ObsList 1 [])
+      | (Panic, w1) => ({| s_flw := Some (poison s); s_w := w1; s_tl := s_tl x; s_dead := s_dead x |}, ObsList 2 [])
       end
     end
-  | OSetFaults l => ({| s_flw := s_flw x; s_w := set_faults w l; s_tl := s_tl x |}, ObsRes 0 false)
-  | OSetKill k => ({| s_flw := s_flw x; s_w := set_kill w (Some k); s_tl := s_tl x |}, ObsRes 0 false)
-  | OCrash => ({| s_flw := None; s_w := set_acts (set_kill w None) O; s_tl := [] |}, ObsRes 0 false)
+  | OSetFaults l => ({| s_flw := s_flw x; s_w := set_faults w l; s_tl := s_tl x; s_dead := s_dead x |}, ObsRes 0 false)
+  | OSetKill k => ({| s_flw := s_flw x; s_w := set_kill w (Some k); s_tl := s_tl x; s_dead := s_dead x |}, ObsRes 0 false)
+  | OCrash => ({| s_flw := None; s_w := set_acts (set_kill w None) O; s_tl := []; s_dead := false |}, ObsRes 0 false)
   | OSnap => (x, snapshot w)
+  end.
+
+(* one operation *)
+Definition step (x : sys) (o : op) : sys * obs :=
+  match s_flw x with
+  | Some s =>
+    if is_async s then
+      match o with
+      | OStop =>
+        (* both Drop impls send the shutdown request (if the thread still runs), then the state is dropped *)
+        let x1 := if s_dead x || f_poisoned s then x else async_consume x s AShutdown in
+        sync_step {| s_flw := s_flw x1; s_w := s_w x1; s_tl := s_tl x1; s_dead := true |} OStop
+      | _ => match async_step x s o with Some r => r | None => sync_step x o end
+      end
+    else sync_step x o
+  | None => sync_step x o
   end.
 
 Fixpoint run (x : sys) (ops : list op) : sys * list obs :=
@@ -167,4 +221,5 @@ Fixpoint run (x : sys) (ops : list op) : sys * list obs :=
 
 Definition world0 (t0 off : Z) : world :=
   {| wfs := empty_fs; wnow := t0; woff := off; wfaults := []; wkill := None; werrs := []; wlink := None; wacts := O |}.
-Definition sys0 (t0 off : Z) : sys := {| s_flw := None; s_w := world0 t0 off; s_tl := [] |}.
+Definition sys0 (t0 off : Z) : sys := {| s_flw := None; s_w := world0 t0 off; s_tl := []; s_dead := false |}.
+
